@@ -143,7 +143,12 @@ func (a *MQTTClientAuth) checkAuth(connect *packets.ConnectPacket) string {
 // Handle handles context.
 func (a *MQTTClientAuth) Handle(ctx *context.Context) string {
 	req := ctx.GetInputRequest().(*mqttprot.Request)
-	resp := ctx.GetOutputResponse().(*mqttprot.Response)
+	resp, ok := ctx.GetOutputResponse().(*mqttprot.Response)
+	if !ok {
+		// the namespace of this flow node has no MQTT response yet
+		resp = mqttprot.NewResponse()
+		ctx.SetOutputResponse(resp)
+	}
 	if req.PacketType() != mqttprot.ConnectType {
 		return ""
 	}
